@@ -15,6 +15,8 @@ replaced by a text stream; `run_subprocess` does the same through a real process
 the encoder reading from a file or from stdin (`-`), and evaluates the statement of C09 on the SERIALISED forms:
 every format read back the way `command_encode` reads it carries the data of the flat JSON file, and encoding from
 each of the four gives the bytes of the plain re-encode `Encoder().process(FlatJsonRenderer().render(msg))`.
+Stages `ascii`, `text`, `literal`, `subprocess-text` are statements of the MODEL about the text (pure ASCII, the document
+of the rendered object, the literal of each character value); the others are the property itself.
 It also extracts, for every character value of the message, the JSON string literal the command line really wrote
 for it (flat and nested JSON), for the comparison with the model (driver op `jsontext`).
 """
@@ -112,41 +114,65 @@ def first_diff(a, b, path=()):
     return None
 
 
-class Placeholder(json.JSONEncoder):
-    """bytes -> a marker string, numbered in the order json.dumps meets them"""
+class Lit(str):
+    """a string read from JSON text that remembers the literal it was written as"""
+    raw = None
 
-    def __init__(self, *a, **kw):
-        json.JSONEncoder.__init__(self, *a, **kw)
-        self.seen = []
 
-    def default(self, o):
-        if isinstance(o, bytes):
-            self.seen.append(o)
-            return '@@%d@@' % (len(self.seen) - 1)
-        return json.JSONEncoder.default(self, o)
+def loads_keeping_literals(text):
+    """json.loads(text) in which every string (keys included) is a `Lit`"""
+    from json import decoder, scanner
+    dec = json.JSONDecoder()
+
+    def parse_string(s, end, strict=True):
+        v, e = decoder.py_scanstring(s, end, strict)
+        lit = Lit(v)
+        lit.raw = s[end - 1:e]
+        return lit, e
+    dec.parse_string = parse_string
+    dec.scan_once = scanner.py_make_scanner(dec)
+    return dec.decode(text)
 
 
 def literals_written(obj, text):
     """`obj`: what a renderer returned (bytes inside); `text`: the JSON text the command line printed for it.
-    -> (problem or None, [(bytes value, literal text written for it)]).  Everything that is not a character value
-    must be written as json.dumps writes it."""
-    enc = Placeholder()
-    skeleton = enc.encode(obj)
-    a = STRING_LIT.findall(skeleton)
-    b = STRING_LIT.findall(text)
-    if STRING_LIT.sub('""', skeleton) != STRING_LIT.sub('""', text) or len(a) != len(b):
-        sa, sb = STRING_LIT.sub('""', skeleton), STRING_LIT.sub('""', text)
-        k = next((i for i, (x, y) in enumerate(zip(sa, sb)) if x != y), min(len(sa), len(sb)))
-        return 'JSON text differs from json.dumps of the rendered object outside the character values at offset %d: %r vs %r' % (
-            k, sb[max(0, k - 20):k + 20], sa[max(0, k - 20):k + 20]), []
+    -> (problem or None, [(bytes value, literal text written for it)]).  The text must be a JSON document of the same
+    structure (key order and white space are free) in which every value that is not a character value equals the
+    rendered one (floats by repr)."""
+    try:
+        data = loads_keeping_literals(text)
+    except ValueError as e:
+        return 'the JSON text does not parse: %s' % str(e)[:120], []
     out = []
-    for x, y in zip(a, b):
-        m = re.match(r'"@@(\d+)@@"$', x)
-        if m:
-            out.append((enc.seen[int(m.group(1))], y))
-        elif x != y:
-            return 'JSON text: string %s written as %s' % (x[:60], y[:60]), []
-    return None, out
+
+    def walk(o, d, path):
+        if isinstance(o, bytes):
+            if not isinstance(d, Lit):
+                return 'at %s: character value %r written as %r' % (path, o, d)
+            out.append((o, d.raw))
+            return None
+        if isinstance(o, dict):
+            if not isinstance(d, dict) or sorted(o) != sorted(d):
+                return 'at %s: keys %s written as %s' % (path, sorted(o), sorted(d) if isinstance(d, dict) else type(d).__name__)
+            for k in o:
+                w = walk(o[k], d[k], path + [k])
+                if w:
+                    return w
+            return None
+        if isinstance(o, (list, tuple)):
+            if not isinstance(d, list) or len(o) != len(d):
+                return 'at %s: list of %d written as %s' % (path, len(o), 'list of %d' % len(d) if isinstance(d, list) else type(d).__name__)
+            for i, (x, y) in enumerate(zip(o, d)):
+                w = walk(x, y, path + [i])
+                if w:
+                    return w
+            return None
+        if isinstance(d, Lit):
+            d = str(d)
+        if type(o) is not type(d) or repr(o) != repr(d):
+            return 'at %s: %r written as %r' % (path, o, d)
+        return None
+    return walk(obj, data, []), out
 
 
 def reference(b):
@@ -205,8 +231,6 @@ def pipeline(b, workdir, formats=None, via=None, subprocess_too=False, extra_dec
             bad.append((name + ':decode', 'pybufrkit decode %s failed: %s %s' % (' '.join(flags), exc, err[:200])))
             continue
         texts[name] = text
-        if not text.endswith('\n'):
-            bad.append((name + ':decode', 'output does not end with a newline'))
         # -- what command_encode makes of it
         try:
             if name == 'flat_json':
@@ -270,7 +294,7 @@ def pipeline(b, workdir, formats=None, via=None, subprocess_too=False, extra_dec
             if rc != 0 or se:
                 bad.append((name + ':subprocess', 'python -m pybufrkit decode %s: rc %s %s' % (' '.join(flags), rc, se[:200])))
             elif so.decode('utf-8', 'replace') != text:
-                bad.append((name + ':subprocess', 'python -m pybufrkit decode %s prints other text than main() in-process' % ' '.join(flags)))
+                bad.append((name + ':subprocess-text', 'python -m pybufrkit decode %s prints other text than main() in-process' % ' '.join(flags)))
             else:
                 fout2 = os.path.join(workdir, 'out2.bufr')
                 if os.path.exists(fout2):
